@@ -73,8 +73,11 @@ func tokenizeRule(x *Ctx, f *ssa.Function) {
 			return "", "", false
 		}
 		v := t.Args[1]
-		if v.Op != "varargs" || len(v.Args) != 1 || v.Args[0].Op != "slice" || v.Args[0].Args[0].String() != "arg0" || v.Args[0].Args[1] == nil || v.Args[0].Args[2] == nil {
+		if v.Op != "varargs" || len(v.Args) != 1 || v.Args[0].Op != "slice" || v.Args[0].Args[0].String() != "arg0" || v.Args[0].Args[1] == nil {
 			return "", "", false
+		}
+		if v.Args[0].Args[2] == nil {
+			return v.Args[0].Args[1].String(), "len(arg0)", true // str[ofs:] is str[ofs:len(str)]
 		}
 		return v.Args[0].Args[1].String(), v.Args[0].Args[2].String(), true
 	}
@@ -102,6 +105,13 @@ func tokenizeRule(x *Ctx, f *ssa.Function) {
 			continue
 		}
 		nAppend++
+		if p.End == paths.EndReturn && c == "len(arg0)" {
+			// the tail taken to the end of the string after the scan (the column has reached the end there)
+			if ofs != "" && o != ofs {
+				badShape += fmt.Sprintf("tail append of str[%s:], elsewhere str[%s:%s]\n", o, ofs, col)
+			}
+			continue
+		}
 		if ofs == "" {
 			ofs, col = o, c
 		} else if o != ofs || c != col {
@@ -133,7 +143,7 @@ func tokenizeRule(x *Ctx, f *ssa.Function) {
 		if _, _, ok := isAppend(r); ok {
 			continue
 		}
-		if !p.HasFact(pending, false) {
+		if !p.HasFact(pending, false) && !p.HasFact("lt("+ofs+",len(arg0))", false) {
 			bad += "a return without the pending tail str[ofs:col] although ofs < col may hold:\n" + p.String() + "\n"
 		}
 	}
